@@ -154,6 +154,10 @@ func runC15(x *Ctx) {
 					if !allowed[ct.Name] {
 						bad += x.P.Pos(c.Pos()) + ": " + ct.Name + " in Segments: it does not keep empty segments apart\n"
 					}
+					// SplitN with a positive count stops splitting: the rest of the command ends up in the last segment
+					if ct.Name == "strings.SplitN" && len(ct.Args) == 3 && !(ct.Args[2].Op == "const" && strings.HasPrefix(ct.Args[2].Name, "-")) {
+						bad += x.P.Pos(c.Pos()) + ": strings.SplitN(.., " + ct.Args[2].String() + ") in Segments: beyond that many segments the command is no longer split\n"
+					}
 				}
 			}
 		}
